@@ -1,11 +1,12 @@
 """Property -> rules.  Each property's check runs the listed rules; the texts go into the evidence."""
-from .rules import tab, enc, cas, dsk
+from .rules import tab, enc, cas, dsk, wid
 
 RULESETS = {}
 RULESETS.update(tab.RULES)
 RULESETS.update(enc.RULES)
 RULESETS.update(cas.RULES)
 RULESETS.update(dsk.RULES)
+RULESETS.update(wid.RULES)
 
 PROPS = {}
 
@@ -29,3 +30,4 @@ prop("C06", ["CAS-1", "CAS-5", "CAS-6", "CAS-3"], "x", "y")
 prop("C07", ["DSK-1", "DSK-2", "DSK-3", "DSK-4", "DSK-12"], "x", "y")
 prop("C08", ["DSK-1", "DSK-2", "DSK-4", "DSK-6", "DSK-7", "DSK-12"], "x", "y")
 prop("C15", ["DSK-6", "DSK-7", "DSK-12"], "x", "y")
+prop("C12", ["WID-1", "WID-3", "WID-5", "LAY-5", "ENC-4", "TAB-3"], "x", "y")
